@@ -163,7 +163,7 @@ func histMain(args []string) error {
 				patiences := []time.Duration{2 * time.Second, 4 * time.Second, 8 * time.Second}
 				if atomic.LoadInt32(&hangs) >= 4 {
 					// the selector evidently blocks: do not spend the whole budget waiting for every history
-					patiences = []time.Duration{300 * time.Millisecond}
+					patiences = []time.Duration{50 * time.Millisecond}
 				}
 				for _, patience := range patiences {
 					done := make(chan []obsJ, 1)
